@@ -55,4 +55,8 @@ func checkC02(c *Ctx) {
 	c.useRules(ruleL7)
 	c.writerCriticalSpan()
 	c.commitAfterUse()
+	// what goes out has the length Len() says and the bytes the encoder counted (T1 length tables, B14)
+	c.codecLengthTables()
+	// the QoS 2 table of a clean session is not inherited: the CleanSession bit is what the setters of the other flags leave it
+	c.flagBitTables()
 }
